@@ -172,7 +172,37 @@ def run(ctx):
     p = rm_raw.params[1]
     body = ast.unparse(rm.node)
     del_main = [n for n in own_nodes(rm.node) if isinstance(n, ast.Call) and ast.unparse(n.func) == "self.graph.remove_node" and ast.unparse(n.args[0]) == p]
-    flip = [n for n in own_nodes(rm.node) if isinstance(n, ast.Assign) and ast.unparse(n.targets[0]) == f"self.removed_nodes[{p}]"]
+    def flipped_ids():
+        """What the mask writes `self.removed_nodes[i] = True` of the flattened
+        remove_node cover: ("id", text) for a direct index, ("each", iterable
+        text) for an index that is the variable of an enclosing for loop."""
+        out = []
+        for n in own_nodes(rm.node):
+            if not (isinstance(n, ast.Assign) and len(n.targets) == 1 and isinstance(n.targets[0], ast.Subscript)
+                    and ctx.norm.xtext(rm, n.targets[0].value) == "self.removed_nodes"
+                    and isinstance(n.value, ast.Constant) and n.value.value is True):
+                continue
+            idx = n.targets[0].slice
+            loop = None
+            if isinstance(idx, ast.Name):
+                cur = rm.module.parents.get(n)
+                while cur is not None and cur is not rm.node:
+                    if isinstance(cur, ast.For) and isinstance(cur.target, ast.Name) and cur.target.id == idx.id:
+                        loop = cur
+                        break
+                    cur = rm.module.parents.get(cur)
+            if loop is None:
+                out.append(("id", ctx.norm.xtext(rm, idx), n))
+            else:
+                it = ctx.norm.xexpr(rm, loop.iter)
+                if isinstance(it, (ast.Tuple, ast.List)):
+                    out += [("id", ast.unparse(e), n) for e in it.elts]
+                else:
+                    out.append(("each", ast.unparse(it), n))
+        return out
+
+    FL = flipped_ids()
+    flip = [f for f in FL if f[0] == "id" and f[1] == p]
     if del_main and flip:
         chk.ok("R17.a", rm.qualname, rm.loc(), "removes the node and flips its own mask entry")
     else:
@@ -192,7 +222,8 @@ def run(ctx):
         )
     elif iso:
         # every isolated node must be flipped and removed
-        flips = [n for n in own_nodes(rm.node) if isinstance(n, ast.Assign) and ast.unparse(n.targets[0]).startswith("self.removed_nodes[") and ast.unparse(n.targets[0]) != f"self.removed_nodes[{p}]"]
+        flips = [f for f in FL if f[0] == "each" and "isolates" in f[1]] or [
+            n for n in own_nodes(rm.node) if isinstance(n, ast.Assign) and ast.unparse(n.targets[0]).startswith("self.removed_nodes[") and ast.unparse(n.targets[0]) != f"self.removed_nodes[{p}]"]
         rmf = [n for n in own_nodes(rm.node) if isinstance(n, ast.Call) and ast.unparse(n.func) in ("self.graph.remove_nodes_from",)]
         if flips and rmf:
             chk.ok("R17.a", rm.qualname, rm.loc(iso[0]), "isolated nodes (total degree 0) are removed and flagged")
@@ -222,8 +253,8 @@ def run(ctx):
         c = calls[0]
         arg = next((k.value for k in c.keywords if k.arg == "completed_operations"), c.args[1] if len(c.args) > 1 else None)
         garg = c.args[0] if c.args else next((k.value for k in c.keywords if k.arg == "job_shop_graph"), None)
-        at = ast.unparse(arg) if arg is not None else ""
-        if at == "self.dispatcher.completed_operations()" and garg is not None and ast.unparse(garg) == "self.job_shop_graph":
+        at = ctx.norm.xtext(upd, arg) if arg is not None else ""
+        if at == "self.dispatcher.completed_operations()" and garg is not None and ctx.norm.xtext(upd, garg) == "self.job_shop_graph":
             chk.ok("R17.c", upd.qualname, upd.loc(c), "operation nodes removed for dispatcher.completed_operations()")
         elif any(x in at for x in ("scheduled_operations", "uncompleted_operations", "unscheduled_operations", "ongoing_operations")):
             chk.violation("R17.c", upd, c, f"operation nodes are removed for `{at}`, not for the completed operations: nodes of operations still running (or not even scheduled) disappear", loc=upd.loc(c))
@@ -316,56 +347,42 @@ def run(ctx):
     if look is None:
         raise AnalysisError("get_node_by_type_and_id vanished")
     pid = look.params[2]
-    fast = [n for n in own_nodes(look.node) if isinstance(n, ast.Assign) and ast.unparse(n.value) == f"nodes[{pid}]"]
-    direct = [n for n in own_nodes(look.node) if isinstance(n, ast.Return) and n.value is not None and ast.unparse(n.value) == f"nodes[{pid}]"]
-    def _verified(r):
-        cur = look.module.parents.get(r)
-        while cur is not None and cur is not look.node:
-            if isinstance(cur, ast.If):
-                t = ast.unparse(cur.test)
-                if "==" in t and pid in t and ("get_nested_attr" in t or "getattr" in t or "_attr" in t) and f"nodes[{pid}]" in t.replace(" ", ""):
-                    return True
-            cur = look.module.parents.get(cur)
-        return False
+    # every returning path hands out a node whose own id was compared with the
+    # requested id on that path (a branch atom `<id of the node> == node_id`)
+    # or which comes from a generator filtered by such a comparison
+    from .common import path_atoms
 
-    direct = [r for r in direct if not _verified(r)]
-    for r in direct:
+    leng = ctx.engine(relevant=lambda e: e.kind in ("branch", "return"), max_depth=0, unroll=1)
+    n_ret = 0
+    bad_ret = None
+    for pth in leng.paths(look, g):
+        if pth.outcome != "return" or not pth.events:
+            continue
+        rv = pth.events[-1].data.get("value")
+        if rv is None:
+            continue
+        n_ret += 1
+        x = ctx.norm.xexpr(look, rv)
+        rt = ast.unparse(x)
+        ok_ret = False
+        if isinstance(x, ast.Call) and isinstance(x.func, ast.Name) and x.func.id == "next" and x.args and isinstance(x.args[0], ast.GeneratorExp):
+            ge = x.args[0]
+            conds = [ast.unparse(c) for gen in ge.generators for c in gen.ifs]
+            ok_ret = any("==" in t and pid in t for t in conds) and ast.unparse(ge.elt) == ast.unparse(ge.generators[0].target)
+        if not ok_ret:
+            for t, val in path_atoms(ctx, pth.events).items():
+                if val and "==" in t and pid in t and (rt in t or ast.unparse(rv) in t):
+                    ok_ret = True
+        if not ok_ret and bad_ret is None:
+            bad_ret = (pth, rv)
+    if n_ret == 0:
+        raise AnalysisError("get_node_by_type_and_id: no returning path")
+    if bad_ret is not None:
         chk.violation(
-            "R17.d", look, r,
-            f"the fast path returns nodes[{pid}] without checking that node's own id: when nodes of a type are not "
-            "stored in id order the wrong machine/job node is returned (and removed)",
-            loc=look.loc(r),
+            "R17.d", look, bad_ret[1],
+            f"a path returns `{ast.unparse(bad_ret[1])}` without having compared that node's own id with `{pid}`: when nodes "
+            "of a type are not stored in id order the wrong machine/job node is returned (and removed)",
+            loc=look.loc(bad_ret[1]), path=bad_ret[0].describe(),
         )
-    verified_direct = [n for n in own_nodes(look.node) if isinstance(n, ast.Return) and n.value is not None and ast.unparse(n.value) == f"nodes[{pid}]" and _verified(n)]
-    if direct:
-        pass
-    elif verified_direct:
-        chk.ok("R17.d", look.qualname, look.loc(verified_direct[0]), "fast path verified against the node's own id")
-    elif not fast:
-        # no fast path: only the verified scan remains
-        scan = [n for n in own_nodes(look.node) if isinstance(n, ast.For)]
-        if scan:
-            chk.ok("R17.d", look.qualname, look.loc(), "lookup by verified scan")
-        else:
-            raise AnalysisError("get_node_by_type_and_id: lookup shape not recognised")
     else:
-        var = ast.unparse(fast[0].targets[0])
-        rets = [n for n in own_nodes(look.node) if isinstance(n, ast.Return) and n.value is not None and ast.unparse(n.value) == var]
-        verified = True
-        for r in rets:
-            cur = look.module.parents.get(r)
-            ok = False
-            while cur is not None and cur is not look.node:
-                if isinstance(cur, ast.If) and "==" in ast.unparse(cur.test) and pid in ast.unparse(cur.test) and ("get_nested_attr" in ast.unparse(cur.test) or "getattr" in ast.unparse(cur.test)):
-                    ok = True
-                cur = look.module.parents.get(cur)
-            if not ok:
-                verified = False
-                chk.violation(
-                    "R17.d", look, r,
-                    f"the fast path returns nodes[{pid}] without checking that node's own id: when nodes of a type are not "
-                    "stored in id order the wrong machine/job node is returned (and removed)",
-                    loc=look.loc(r),
-                )
-        if verified:
-            chk.ok("R17.d", look.qualname, look.loc(fast[0]), "fast path verified against the node's own id")
+        chk.ok("R17.d", look.qualname, look.loc(), f"{n_ret} returning paths, each verified against the node's own id")
